@@ -43,6 +43,78 @@ void collect_symbols(const expression_t& e, std::vector<symbol_t>& out)
         collect_symbols(*expr_child(e, i), out);
 }
 
+// ---- the types attached to the nodes: type_t::subst (used for process members, P.x with P's arguments substituted) ----------
+static void type_exprs(const type_t& t, std::vector<expression_t>& out, int depth = 0)
+{
+    if (t.data == nullptr || depth > 12)
+        return;
+    expression_t ex = t.get_expression();
+    if (!ex.empty())
+        out.push_back(ex);
+    int k = t.get_kind();
+    if (k == PROCESS || k == INSTANCE || k == LSC_INSTANCE || k == PROCESS_SET)
+        return;     // children are whole frames
+    for (size_t i = 0; i < t.size(); ++i)
+        type_exprs(t.get(i), out, depth + 1);
+}
+
+static size_t count_symbol(const expression_t& e, const symbol_t& s)
+{
+    if (e.empty())
+        return 0;
+    size_t n = (e.get_kind() == IDENTIFIER && expr_symbol_raw(e) == s) ? 1 : 0;
+    for (size_t i = 0; i < expr_stored_children(e); ++i)
+        n += count_symbol(*expr_child(e, i), s);
+    return n;
+}
+
+static size_t count_in_type(const type_t& t, const symbol_t& s)
+{
+    std::vector<expression_t> xs;
+    type_exprs(t, xs);
+    size_t n = 0;
+    for (auto& x : xs)
+        n += count_symbol(x, s);
+    return n;
+}
+
+/** for the type of every node of e and every symbol in a bound or size expression of that type: substitution replaces every
+    occurrence, touches no other symbol, does not change the original, and substituting a symbol by itself changes nothing */
+static void type_subst_laws(const expression_t& e, int& checks, const std::function<void(const std::string&)>& fail, int depth = 0)
+{
+    if (e.empty() || depth > 30)
+        return;
+    type_t t = e.get_type();
+    if (t.data != nullptr) {
+        int k = t.get_kind();
+        if (!(k == PROCESS || k == INSTANCE || k == LSC_INSTANCE || k == PROCESS_SET)) {
+            std::vector<expression_t> xs;
+            type_exprs(t, xs);
+            std::vector<symbol_t> syms;
+            for (auto& x : xs)
+                collect_symbols(x, syms);
+            const std::string before = type_sexpr(t, 0);
+            for (size_t i = 0; i < syms.size() && i < 4; ++i) {
+                const symbol_t& s = syms[i];
+                type_t t2 = t.subst(s, expression_t::create_constant(424243));
+                ++checks;
+                if (count_in_type(t2, s) != 0)
+                    fail("type-subst:symbol-left:" + s.get_name() + ":" + std::string(kind_name(e.get_kind())));
+                for (auto& o : syms)
+                    if (!(o == s) && count_in_type(t2, o) != count_in_type(t, o))
+                        fail("type-subst:other-symbol-changed:" + o.get_name());
+                if (type_sexpr(t, 0) != before)
+                    fail("type-subst:original-changed:" + s.get_name());
+                type_t t3 = t.subst(s, expression_t::create_identifier(s));
+                if (type_sexpr(t3, 0) != before)
+                    fail("type-subst:identity-changes-type:" + s.get_name());
+            }
+        }
+    }
+    for (size_t i = 0; i < expr_stored_children(e); ++i)
+        type_subst_laws(*expr_child(e, i), checks, fail, depth + 1);
+}
+
 // reference substitution, on the rendering
 // reference substitution: the rendering of e in which every identifier bound to s is replaced by repl
 // (one renderer for both sides of the comparison, harness/dump.cpp; DOT member decorations off because they are
@@ -331,6 +403,8 @@ json expr_laws(Document& doc, expression_t e)
                 }
             }
         }
+        // --- substitution inside the types of the nodes
+        type_subst_laws(e, checks, fail);
         // --- get_size
         ++checks;
         check_sizes(e, fails);
